@@ -160,8 +160,7 @@ class GeometricConstraintsRowWise(GeometricConstraints):
         self.type = DesignGeomType.ROWWISE
 
     def to_input(self) -> dict:
-        return {
-            'perimeter_spacing_ratio': self.perimeter_spacing_ratio,
+        d = {
             'min_spacing': self.min_spacing,
             'max_spacing': self.max_spacing,
             'spacing_step': self.spacing_step,
@@ -172,3 +171,7 @@ class GeometricConstraintsRowWise(GeometricConstraints):
             'no_go_boundaries': self.no_go_boundaries,
             'method': DesignGeomType.ROWWISE.name,
         }
+        # optional in the schema (a number when present): leave it out when no perimeter ratio is used
+        if self.perimeter_spacing_ratio is not None:
+            d['perimeter_spacing_ratio'] = self.perimeter_spacing_ratio
+        return d
